@@ -1374,6 +1374,9 @@ class UnitQuaternion(Quaternion):
         assert base.isvector(w, 3), 'w must be a 3-vector'
         w = base.getvector(w)
         theta = base.norm(w)
+        if base.iszerovec(w, tol=100):
+            # null rotation
+            return cls()
         s = math.cos(theta / 2)
         v = math.sin(theta / 2) * base.unitvec(w)
         return cls(s=s, v=v, check=False)
